@@ -64,6 +64,12 @@ func (t *Track) RecordFrom(inPort drivers.In, ticks MetricTicks, bpm float64) (s
 	t.Add(0, MetaTempo(bpm))
 	var absmillisec int32
 	return midi.ListenTo(inPort, func(msg midi.Message, absms int32) {
+		// a track holds channel messages only: realtime and system common messages
+		// that arrive on the port must not end up in the SMF file. The time that passes
+		// while they arrive is kept, since delta is measured from the last recorded message.
+		if !msg.Is(midi.ChannelMsg) {
+			return
+		}
 		deltams := absms - absmillisec
 		absmillisec = absms
 		delta := ticks.Ticks(bpm, time.Duration(deltams)*time.Millisecond)
